@@ -86,7 +86,7 @@ func init() {
 }
 
 var exprTextExempt = map[string]string{
-	"ColSelector.table":    "the table of a column reference is implicit where text is persisted (CHECK and DEFAULT refer to the table they belong to)",
+	"ColSelector.table":   "the table of a column reference is implicit where text is persisted (CHECK and DEFAULT refer to the table they belong to)",
 	"CaseWhenExp.resType": "derived by inferType from the arms, not part of the expression",
 }
 
